@@ -4,13 +4,15 @@ Copies a confirmed seeded change from /tmp/wt-out into /verif/seeded/<PROPERTY>-
 import sys, os, shutil, json, re
 pid, mut, status, caught, note = sys.argv[1:6]
 rnd = os.environ.get("SEEDED_ROUND", "1")
-src = f"/tmp/wt-out/{pid}/{mut}" if rnd == "1" else f"/tmp/wt-out2/{pid}/{mut}"
+src = f"/tmp/wt-out/{pid}/{mut}" if rnd == "1" else f"/tmp/wt-out{rnd}/{pid}/{mut}"
 n = re.sub(r"\D", "", mut)
 if rnd != "1":
-    n = str(int(n) + 2)
+    n = str(int(n) + 2 * (int(rnd) - 1))
 dst = f"/verif/seeded/{pid}-m{n}"
 os.makedirs(dst, exist_ok=True)
 shutil.copy(f"{src}/patch.diff", f"{dst}/patch.diff")
+if os.path.exists(f"{src}/check_quick.log"):
+    shutil.copy(f"{src}/check_quick.log", f"{dst}/check_quick.log")
 for f in os.listdir(src):
     if f.endswith("_test.go") or f == "notes.md":
         shutil.copy(f"{src}/{f}", f"{dst}/{f}.txt" if f.endswith(".go") else f"{dst}/{f}")
@@ -18,7 +20,7 @@ notes = open(f"{src}/notes.md").read() if os.path.exists(f"{src}/notes.md") else
 meta = {
     "id": f"{pid}-m{n}",
     "property": pid,
-    "origin": "independent sub-agent given only the property text and a scratch worktree" + ("" if rnd == "1" else " (second round: also told which two changes were already known, to avoid repeating them)"),
+    "origin": "independent sub-agent given only the property text and a scratch worktree" + ("" if rnd == "1" else " (later round: also told which changes were already known and which mechanisms had been used, to avoid repeating them)"),
     "needs_to_manifest": notes.strip().split("\n\n")[0][:1200],
     "confirmed_by_me": "tools/try_mutant.sh: patch applies to the worktree at /repo HEAD, package builds, existing suite unchanged (only the two baseline failures), demonstration fails with the change and passes without it",
     "demonstration": "demo_test.go.txt (copy into the repository root as a _test.go file; `go test -vet=off -count=1 -run <name> .`)",
